@@ -142,6 +142,58 @@ def transfer_loop(ballot):
     variant(seq_len(r) - ballot.index)
 
 
+@specfn
+def continuing(c):
+    "Minneapolis: a continuing candidate is hopeful (or elected with the transfer still pending, which this rule never leaves open)"
+    return or_(c.state == 'hopeful', and_(c.state == 'elected', truthy(c.pending)))
+
+
+@contract('droop.rules.mpls.Rule.count.<locals>.transfer', props=['C02', 'C06'], free={'E': 'Election', 'C': 'Candidates'}, ledger=True)
+def transfer_to_continuing(ballot: 'Ballot'):
+    """167.70(c)(1)d/e: the ballot moves forward to the next continuing candidate of its ranking (or is exhausted) and exactly its
+    current value is credited there (or to the non-transferable total); nothing else changes"""
+    requires(same_ref(C, E.C))
+    requires(ballot.index >= 0)
+    requires(ballot.index <= seq_len(ballot.ranking))
+    requires(is_whole(ballot.multiplier))
+    requires(is_the_election(E))
+    requires(is_ballot(ballot))
+    r = ballot.ranking
+    v = times_whole(ballot.weight, ballot.multiplier)
+    ensures(ballot.index >= old(ballot.index))
+    ensures(ballot.index <= seq_len(r))
+    ensures(forall(range(old(ballot.index), ballot.index), lambda j: not_(continuing(cand_by_cid(seq_at(r, j))))),
+            name='every candidate passed over is not continuing')
+    ensures(implies(ballot.index < seq_len(r), continuing(cand_by_cid(seq_at(r, ballot.index)))),
+            name='the ballot stands with a continuing candidate')
+    ensures(implies(ballot.index >= seq_len(r),
+                    and_(E.exhausted == old(E.exhausted) + v, field_unchanged(Candidate, 'vote'))),
+            name='exhausted: value goes to the non-transferable total')
+    top = cand_by_cid(seq_at(r, ballot.index))
+    ensures(implies(ballot.index < seq_len(r),
+                    and_(E.exhausted == old(E.exhausted),
+                         field_updated(Candidate, 'vote', top, old(top.vote) + v))),
+            name='value credited to the new top candidate only')
+    ensures(ghost('T') == old(ghost('T')) + v, name='ledger: the total credited grows by exactly the value of the ballot')
+    ensures(ghost_moved('G', old(top_ref(ballot)), top_ref(ballot), v),
+            name='ledger: the value carried by the ballot moves with it')
+    modifies(ballot, 'index')
+    modifies(E, 'exhausted')
+    modifies_all(Candidate, 'vote')
+    modifies_ghost('T', 'G')
+
+
+@loops('droop.rules.mpls.Rule.count.<locals>.transfer', anchor='while#1')
+def transfer_continuing_loop(ballot):
+    r = ballot.ranking
+    invariant(ballot.index >= old(ballot.index))
+    invariant(ballot.index <= seq_len(r))
+    invariant(forall(range(old(ballot.index), ballot.index), lambda j: not_(continuing(cand_by_cid(seq_at(r, j))))))
+    invariant(ghost('T') == old(ghost('T')))
+    invariant(ghost_moved('G', old(top_ref(ballot)), top_ref(ballot), ballot_value(ballot)))
+    variant(seq_len(r) - ballot.index)
+
+
 # --------------------------------------------------------------------------------------------- C07 breakTie
 BREAKTIE_E = ['droop.rules.wigm.Rule.count.<locals>.breakTie', 'droop.rules.wigm_prf.Rule.count.<locals>.breakTie',
               'droop.rules.meek.Rule.count.<locals>.breakTie']
